@@ -642,7 +642,9 @@ def findwalks(CIJ):
     -----
     Wq grows very quickly for larger N,K,q. Weights are discarded.
     '''
-    CIJ = binarize(CIJ, copy=True)
+    # count in floating point whatever the storage type of the input (bool
+    # products are logical, uint8 products wrap around modulo 256)
+    CIJ = binarize(CIJ, copy=True).astype(float)
     n = len(CIJ)
     Wq = np.zeros((n, n, n))
     CIJpwr = CIJ.copy()
